@@ -249,8 +249,8 @@ var shebangs = []string{
 var corpusSyntax = corpus.From("syntax")
 
 // (rapid favours the first entries of a list)
-var dirs = []string{"", "sub/", "", "sub/deep/", "other/", "d.sh/", ".hid/", ".git/", ".svn/", ""}
-var exts = []string{".sh", "", ".bash", ".sh", ".mksh", ".zsh", ".bats", "", ".txt", ".other", ".sh.bak", ".bash"}
+var dirs = []string{"", "sub/", "", "sub/deep/", "", "other/", "d.sh/", "", ".hid/", "sub/", ".git/", "", ".svn/", ""}
+var exts = []string{".sh", "", ".bash", ".sh", ".mksh", ".sh", ".zsh", ".bats", ".sh", "", ".txt", ".bash", ".other", ".sh", ".sh.bak", ".bash"}
 
 // chance draws an event of roughly the given probability. rapid's integers
 // are biased towards small values (and shrink towards them), so the event is
@@ -311,7 +311,7 @@ func format(src string, o Opts) (out string, ok bool) {
 	return b.String(), true
 }
 
-var kinds = []string{"messy", "formatted", "clean", "messy", "corpus", "broken", "formatted", "messy", "corpus", "tiny", "clean", "broken"}
+var kinds = []string{"messy", "formatted", "clean", "messy", "formatted", "corpus", "broken", "formatted", "messy", "corpus", "tiny", "clean", "formatted", "messy"}
 
 func genBody(t *rapid.T, o Opts) string {
 	snippet := func() string {
@@ -377,12 +377,12 @@ func gen(t *rapid.T) Case {
 	c.Dot = rapid.Bool().Draw(t, "dot")
 	c.Nul = chance(t, "nul", 30)
 	c.ListWrite = chance(t, "lw", 50)
-	n := rapid.IntRange(1, 6).Draw(t, "nfiles")
+	n := rapid.SampledFrom([]int{3, 4, 2, 5, 3, 6, 1, 4, 7}).Draw(t, "nfiles")
 	for i := 0; i < n; i++ {
 		dir := rapid.SampledFrom(dirs).Draw(t, "dir")
 		ext := rapid.SampledFrom(exts).Draw(t, "ext")
 		name := fmt.Sprintf("f%d%s", i, ext)
-		if chance(t, "hidden", 15) {
+		if chance(t, "hidden", 10) {
 			name = "." + name
 		}
 		body := genBody(t, c.Opts)
